@@ -6,6 +6,7 @@ package main
 // decoded parameter lists of the template. No string solving is involved.
 
 import (
+	"os"
 	"fmt"
 	"go/constant"
 	"go/types"
@@ -40,6 +41,16 @@ const (
 
 func parseTemplate(s string) *tokTemplate {
 	t := &tokTemplate{kind: "other", text: s}
+	if s == "\x1b[%d;%dH" {
+		// CUP row ; col
+		t.kind, t.nargs = "cup", 2
+		return t
+	}
+	if s == "\x1b]66;w=%d;%s\x1b\\" {
+		// explicit width (OSC 66): the text occupies w columns whatever it is
+		t.kind, t.nargs = "ew", 2
+		return t
+	}
 	if strings.HasPrefix(s, "\x1b]8;") && strings.Count(s, "%s") == 2 && strings.HasSuffix(s, "\x1b\\") {
 		t.kind = "osc8"
 		t.nargs = 2
@@ -127,6 +138,16 @@ type Token struct {
 // standards-conforming terminal has after the tokens emitted so far.
 func (ex *Exec) modesKey() *HeapKey {
 	return ex.regKey("X:modes", smt.ArraySort(smt.Int, smt.Int), nil)
+}
+
+// the ghost cursor of the terminal (1-based row and column, as CUP counts) after the bytes written so far
+func (ex *Exec) trowKey() *HeapKey { return ex.regKey("X:trow", smt.Int, nil) }
+func (ex *Exec) tcolKey() *HeapKey { return ex.regKey("X:tcol", smt.Int, nil) }
+
+// advanceCursor: plain text of display width w was written.
+func (ex *Exec) advanceCursor(st *State, w *smt.Term) {
+	k := ex.tcolKey()
+	st.heap[k.Name] = ex.W.C.Add(ex.heapGet(st, k), w)
 }
 
 func (ex *Exec) penKey() *HeapKey {
@@ -266,6 +287,23 @@ func (ex *Exec) tokenCall(fr *Frame, callee *ssa.Function, cc *ssa.CallCommon, a
 		if ok && len(va) == tm.nargs {
 			res.Tok = &Token{tmpl: tm, args: va}
 		}
+		if res.Tm != nil {
+			// the literal bytes of the format are in the result: it is at least that long
+			lit := 0
+			for i := 0; i < len(text); i++ {
+				if text[i] == '%' && i+1 < len(text) {
+					i++
+					if text[i] == '%' {
+						lit++
+					}
+					continue
+				}
+				lit++
+			}
+			if lit > 0 {
+				ex.assume(ex.W.C.Ge(ex.W.C.App("str_len", smt.Int, res.Tm), ex.W.C.IntLit(int64(lit))))
+			}
+		}
 		return res, true
 	case "write":
 		res := mkRes("r_" + callee.Name())
@@ -279,6 +317,11 @@ func (ex *Exec) tokenCall(fr *Frame, callee *ssa.Function, cc *ssa.CallCommon, a
 		}
 		// arbitrary text (graphemes, payloads): assumed free of escape sequences
 		ex.note(ex.Abstr, "assume: non-constant text written to the output contains no escape sequences")
+		if ex.cursorTracked() && args[fi].Tm != nil && ex.W.inModule(pkgOf(callee)) {
+			// (only at the module's own writer: inside it the text is a parameter and is passed on untouched)
+			ex.W.C.DeclareFun("uf_textw", []smt.Sort{args[fi].Tm.Sort}, smt.Int)
+			ex.advanceCursor(st, ex.W.C.App("uf_textw", smt.Int, args[fi].Tm))
+		}
 		return res, true
 	case "printf":
 		res := mkRes("r_" + callee.Name())
@@ -302,6 +345,10 @@ func (ex *Exec) tokenCall(fr *Frame, callee *ssa.Function, cc *ssa.CallCommon, a
 	return Val{}, false
 }
 
+func (ex *Exec) cursorTracked() bool {
+	return ex.FC != nil && ex.FC.Tokens && ex.FC.Cursor
+}
+
 func (ex *Exec) tokensOn() bool {
 	return ex.FC != nil && ex.FC.Tokens
 }
@@ -316,6 +363,30 @@ func (ex *Exec) applyToken(st *State, tk *Token) {
 	ex.tokenLog = append(ex.tokenLog, tk.tmpl.text)
 	switch tk.tmpl.kind {
 	case "other":
+		// constant text without an escape character is plain text: the cursor moves by its length (ASCII)
+		if t := tk.tmpl.text; t != "" && !strings.ContainsAny(t, "\x1b\r\n\b\t") && len(tk.args) == 0 {
+			ascii := true
+			for i := 0; i < len(t); i++ {
+				ascii = ascii && t[i] >= 0x20 && t[i] < 0x7f
+			}
+			if ascii && ex.cursorTracked() {
+				ex.advanceCursor(st, c.IntLit(int64(len(t))))
+			}
+		}
+		return
+	case "cup":
+		if len(tk.args) == 2 && tk.args[0].Tm != nil && tk.args[1].Tm != nil {
+			st.heap[ex.trowKey().Name] = tk.args[0].Tm
+			st.heap[ex.tcolKey().Name] = tk.args[1].Tm
+		} else {
+			ex.havocKey(st, ex.trowKey())
+			ex.havocKey(st, ex.tcolKey())
+		}
+		return
+	case "ew":
+		if ex.cursorTracked() && len(tk.args) == 2 && tk.args[0].Tm != nil {
+			ex.advanceCursor(st, tk.args[0].Tm)
+		}
 		return
 	case "mode":
 		mk := ex.modesKey()
@@ -356,13 +427,59 @@ func (ex *Exec) applyToken(st *State, tk *Token) {
 		}
 		return
 	}
-	// SGR: build the parameter lists as a ghost [][]int and fold the contract-level step function over them
-	intT := types.Typ[types.Int]
-	listT := types.NewSlice(intT)
+	// SGR. A template item of the form "3%d" (one decimal digit appended to a literal) makes the SGR code itself
+	// symbolic; the step function is then folded once per digit with a literal code (so that it simplifies to
+	// "this field is untouched" for every field the code cannot affect) and the results are selected by the digit.
 	lists := tk.tmpl.lists
 	if len(lists) == 0 {
 		lists = [][]tokItem{{{lit: 0, hole: -1}}} // no parameters means 0
 	}
+	pl, pi := -1, -1
+	nprefix := 0
+	for li, l := range lists {
+		for ii, it := range l {
+			if it.prefix {
+				nprefix++
+				pl, pi = li, ii
+			}
+		}
+	}
+	if nprefix == 1 && os.Getenv("GOVC_NO_DIGIT") == "" && tk.args[lists[pl][pi].hole].Tm != nil {
+		a := tk.args[lists[pl][pi].hole].Tm
+		res := c.Fresh("pen_unknown", pen.Sort) // digit outside 0..9: the bytes do not denote this code
+		okAll := true
+		for k := 9; k >= 0; k-- {
+			cp := make([][]tokItem, len(lists))
+			for li, l := range lists {
+				cp[li] = append([]tokItem{}, l...)
+			}
+			cp[pl][pi] = tokItem{lit: lists[pl][pi].lit*10 + int64(k), hole: -1}
+			pk := ex.foldSGR(st, pen, cp, tk)
+			if pk == nil {
+				okAll = false
+				break
+			}
+			res = c.Ite(c.Eq(a, c.IntLit(int64(k))), pk, res)
+		}
+		if okAll {
+			st.heap[k.Name] = res
+			return
+		}
+	}
+	if np := ex.foldSGR(st, pen, lists, tk); np != nil {
+		st.heap[k.Name] = np
+	} else {
+		ex.havocKey(st, k)
+	}
+}
+
+// foldSGR folds the contract-level SGR step function over the parameter lists of one template; nil if the shape
+// cannot be decided statically.
+func (ex *Exec) foldSGR(st *State, pen *smt.Term, lists [][]tokItem, tk *Token) *smt.Term {
+	c := ex.W.C
+	styleT := ex.styleType()
+	intT := types.Typ[types.Int]
+	listT := types.NewSlice(intT)
 	kInner, kOuter := ex.keyElem(intT), ex.keyElem(listT)
 	outerRef := ex.allocRef(st)
 	outerArr := ex.W.zeroOfSort(kOuter.Sort.ArrayElem())
@@ -395,8 +512,7 @@ func (ex *Exec) applyToken(st *State, tk *Token) {
 		iv := Val{T: intT, Tm: c.IntLit(int64(i))}
 		stop := ex.evalPredByName("SgrStop", st, ps, iv)
 		if stop.Tm == nil {
-			ex.havocKey(st, k)
-			return
+			return nil
 		}
 		stopped = c.Or(stopped, stop.Tm)
 		next := ex.evalPredByName("SgrStyle", st, ps, iv, cur)
@@ -408,12 +524,11 @@ func (ex *Exec) applyToken(st *State, tk *Token) {
 				break // last list: where processing would continue does not matter
 			}
 			ex.note(ex.Abstr, "token with statically undecidable SGR shape: "+tk.tmpl.text)
-			ex.havocKey(st, k)
-			return
+			return nil
 		}
 		i = int(n.Int64())
 	}
-	st.heap[k.Name] = cur.Tm
+	return cur.Tm
 }
 
 // evalPredByName applies a contract predicate of the root package to symbolic arguments.
